@@ -55,7 +55,7 @@ def _agree(ctx, E, model, tag, probe, reverse=True):
     ctx.check(tag + "reverse look-up agrees with the dictionary", E[probe] == ctx.oracle(want))
 
 
-def h_history(ctx, k, form, nnames, kind):
+def h_history(ctx, k, form, nnames, kind, probe_choice=True):
     from pyscsi.utils.enum import Enum
     names = NAMES[:nnames]
     init = [{}, {}]
@@ -74,7 +74,8 @@ def h_history(ctx, k, form, nnames, kind):
     ops = ["add:" + n for n in names] + ["remove:" + n for n in names] + ["get:" + n for n in names] + ["reverse"]
     # a reverse look-up is itself an operation that may touch state (a memo of earlier answers): in one half of the
     # histories every intermediate state is probed, in the other only the first and the last one
-    every = ctx.choose("probe-every-step", ["yes", "no"]) == 0 if k > 1 else True
+    # (quick tier: the choice is made for histories of two steps; longer ones probe every state)
+    every = ctx.choose("probe-every-step", ["yes", "no"]) == 0 if (k > 1 and probe_choice) else True
     for step in range(k):
         rev = every or step == k - 1
         which = ctx.choose("enum%d" % step, ["first", "second"])
@@ -152,7 +153,8 @@ def obligations(tier):
         for form in ("dict", "kwargs"):
             for kind in (kinds if k <= 2 else ["int"]):
                 obs.append(Ob("history/k=%d/names=%d/%s/first-value=%s" % (k, nn, form, kind), MOD, "h_history",
-                              {"k": k, "form": form, "nnames": nn, "kind": kind}, split=True))
+                              {"k": k, "form": form, "nnames": nn, "kind": kind,
+                               "probe_choice": k == 2 or tier != "quick"}, split=True))
     for same in (True, False):
         obs.append(Ob("opcode-service-action-enums/same-table=%s" % same, MOD, "h_opcode_enums", {"same_table": same}, split=True))
     return obs
